@@ -162,6 +162,33 @@ def decay_two_datasets(with_fault=True, fault_first=False):   # the auto-linked 
     return sch, _points(sch, [[0.05, -0.01, 0.02, 0.01, 0.05], [-0.1, 0.02, -0.03, 0.02, -0.1]])
 
 
+def decay_free_inputs(with_fault=True, fault_first=False):
+    """General decay megacomplex with a chain K-matrix whose initial concentrations are FREE and start at exactly (1, 0): the implementation
+    switches to a closed-form solution at such values, so which algorithm is used depends on the parameter VALUES of the evaluated point;
+    points 2 and 3 leave (1, 0).  What was evaluated before must not decide the branch."""
+    from glotaran.parameter import Parameters
+    from glotaran.simulation import simulate
+    spec = {
+        "megacomplex": {"mdec": {"type": "decay", "k_matrix": ["km"]}},
+        "k_matrix": {"km": {"matrix": {("s2", "s1"): "rates.1", ("s2", "s2"): "rates.2"}}},
+        "initial_concentration": {"j": {"compartments": ["s1", "s2"], "parameters": ["inputs.1", "inputs.2"]}},
+        "dataset": {"d1": {"megacomplex": ["mdec"], "initial_concentration": "j"}},
+    }
+    params = {"rates": [["1", 0.6], ["2", 0.12]], "inputs": [["1", 1.0], ["2", 0.0]]}
+    true = {"rates": [["1", 0.65], ["2", 0.1]], "inputs": [["1", 0.8], ["2", 0.2]]}
+    time = np.linspace(0, 12, 70)
+    spectral = np.linspace(600, 650, 5)
+    clp = xr.DataArray(np.stack([7 * np.exp(-((spectral - 615) / 15) ** 2), 4 * np.exp(-((spectral - 640) / 12) ** 2)], axis=1),
+                       coords={"spectral": spectral, "clp_label": ["s1", "s2"]}, dims=("spectral", "clp_label"))
+    sim_model = model_class()(**{k: (dict(v) if isinstance(v, dict) else v) for k, v in spec.items()})
+    ds = simulate(sim_model, "d1", Parameters.from_dict(true), {"time": time, "spectral": spectral}, clp=clp, noise=True, noise_std_dev=1e-2, noise_seed=3)
+    data = {"d1": xr.Dataset({"data": ds.data})}
+    if with_fault:
+        _fault_part(spec, params, data, fault_first)
+    sch = _scheme(spec, params, data)
+    return sch, _points(sch, [[0.05, 0.01, -0.2, 0.2], [-0.05, 0.02, 0.0, 0.3]])
+
+
 def fault_nnls():
     """Only the fault megacomplex, NNLS: a NaN matrix makes scipy.optimize.nnls raise inside estimate (partial provider state)."""
     from .c15_models import fault_scheme
@@ -177,6 +204,7 @@ BUILDERS = {
     "decay-irf": decay_irf,
     "decay-2ds-linked": decay_two_datasets,
     "fault-nnls": fault_nnls,
+    "decay-free-inputs": decay_free_inputs,
 }
 
 
